@@ -20,6 +20,7 @@ from __future__ import annotations
 
 import ast
 
+from ..cfg import call_name
 from ..index import AnalysisError, ClassInfo, FuncInfo, get_index, norm
 from ..report import Check
 from ..resolve import Resolver
@@ -55,6 +56,11 @@ def labels_agree(wl: str, rl: str) -> bool:
 
 
 def run(chk: Check) -> None:
+    run_short_forms(chk, get_index())
+    _run(chk)
+
+
+def _run(chk: Check) -> None:
     ix = get_index()
     R = Resolver(ix)
     chk.trusted += [
@@ -775,3 +781,42 @@ def run_none_encoding(chk: Check, ix, R) -> None:
                 r.ok(key, f.loc(n), why)
             else:
                 r.violation(key, f.loc(n), f"{why}: a falsy but non-None value (e.g. an empty __slots__ set, an empty string) is written as None and comes back as None, which means something different to the consumers of this field")
+
+
+def run_short_forms(chk: Check, ix) -> None:
+    """R11.12: a short form may only be chosen when every field it omits is empty."""
+    r = chk.rule("R11.12", "where a binary writer has a short form (an `if` branch that writes fewer fields and returns early), the condition selecting it tests every attribute that only the long form writes: a value whose omitted field is set must not be written in the short form (the field would be lost on reload)", floor=1)
+    n = 0
+    for mn in ("mypy.types", "mypy.nodes"):
+        m = ix.module(mn)
+        for cn, c in sorted(m.classes.items()):
+            w = c.methods.get("write")
+            if w is None:
+                continue
+            body = w.node.body
+            for i, st in enumerate(body):
+                if not (isinstance(st, ast.If) and not st.orelse and st.body and isinstance(st.body[-1], ast.Return) and st.body[-1].value is None):
+                    continue
+                rest = body[i + 1:]
+                if not rest:
+                    continue
+                def attrs(nodes):
+                    out = set()
+                    for x in nodes:
+                        for a in ast.walk(x):
+                            if isinstance(a, ast.Attribute) and isinstance(a.value, ast.Name) and a.value.id == "self" and isinstance(a.ctx, ast.Load):
+                                out.add(a.attr)
+                    return out
+                long_a, short_a, guard_a = attrs(rest), attrs(st.body), attrs([st.test])
+                omitted = long_a - short_a
+                if not omitted or not any(isinstance(c_, ast.Call) and call_name(c_) and call_name(c_).startswith("write") for x in st.body for c_ in ast.walk(x)):
+                    continue
+                n += 1
+                missing = sorted(omitted - guard_a)
+                key = f"{c.qualname}.write: the short form is guarded by every field it omits ({', '.join(sorted(omitted))})"
+                if not missing:
+                    r.ok(key, w.loc(st))
+                else:
+                    r.violation(key, w.loc(st), f"the short form omits {missing} but its condition `{norm(st.test)[:80]}` does not look at {'it' if len(missing) == 1 else 'them'}: a {cn} with {missing[0]} set is written without it and comes back from the binary cache with the field empty (the JSON format keeps it)")
+    if n < 1:
+        raise AnalysisError("no writer with a short form found (expected mypy.types.Instance.write)")
